@@ -42,6 +42,10 @@ type Case struct {
 	// (v/9)%3 mode (0 sendto with an explicit address, 1 Connect to it and Write
 	// without address, 2 Write without address on the connection as it is)
 	UDPDst []int `json:"udp_dst,omitempty"`
+	// udp, v6 only: the socket is dual-stack (v6only off) and the second peer is
+	// the IPv4 peer written as an IPv4-mapped address (::ffff:10.0.0.2), so
+	// connects and sendtos alternate between the two network protocols
+	Dual bool `json:"dual,omitempty"`
 }
 
 type frameCtx struct {
@@ -311,6 +315,17 @@ func scUDP(c Case, fc *frameCtx) *evid.Failure {
 	if c.V6 {
 		peers = []tcpip.Address{peer, tcpip.Address(append(append([]byte(nil), []byte(netsim.B6)[:15]...), 3)), tcpip.Address(append(append([]byte(nil), []byte(netsim.B6)[:15]...), 200))}
 	}
+	if c.V6 && c.Dual {
+		peers[1] = tcpip.Address(append([]byte{0, 0, 0, 0, 0, 0, 0, 0, 0, 0, 0xff, 0xff}, []byte(netsim.B4)...))
+		evid.Label("udp:dual-stack-socket")
+	}
+	// wire addresses of a destination: an IPv4-mapped one travels as IPv4 from the stack's IPv4 address
+	wire := func(a tcpip.Address) (src, dst []byte) {
+		if b := []byte(a); len(b) == 16 && bytes.Equal(b[:12], []byte{0, 0, 0, 0, 0, 0, 0, 0, 0, 0, 0xff, 0xff}) {
+			return []byte(netsim.A4), b[12:]
+		}
+		return []byte(me), []byte(a)
+	}
 	ports := []uint16{5000, 5001, 7}
 	var conn *tcpip.FullAddress // the socket's current remote address
 	for i, n := range c.Sizes {
@@ -341,7 +356,7 @@ func scUDP(c Case, fc *frameCtx) *evid.Failure {
 			if e := s.EP.Connect(dst); e != nil {
 				evid.Label("udp:connect-failed")
 				evid.Note("udp Connect(%v:%d) failed: %v", []byte(dst.Addr), dst.Port, e)
-				return judgeFrames(fc, "tap", tap.Trace(), [][]byte{[]byte(me)})
+				return judgeFrames(fc, "tap", tap.Trace(), [][]byte{[]byte(me), []byte(netsim.A4)})
 			}
 			conn = &tcpip.FullAddress{Addr: dst.Addr, Port: dst.Port}
 			wopts = tcpip.WriteOptions{}
@@ -355,9 +370,13 @@ func scUDP(c Case, fc *frameCtx) *evid.Failure {
 				evid.Label("udp:sendto-on-connected-socket")
 			}
 		}
+		wsrc, wdst := wire(peer)
 		pl := pattern(c.Seed+uint64(i), n)
 		if c.Zero && n >= 2 {
-			pl = zeroSumPayload([]byte(me), []byte(peer), 4000, dport, n, c.Seed+uint64(i))
+			pl = zeroSumPayload(wsrc, wdst, 4000, dport, n, c.Seed+uint64(i))
+		}
+		if len(wdst) == 4 && c.V6 {
+			evid.Label("udp:dual-stack-ipv4-destination")
 		}
 		before := tap.Len()
 		_, _, werr := s.EP.Write(tcpip.SlicePayload(pl), wopts)
@@ -373,8 +392,8 @@ func scUDP(c Case, fc *frameCtx) *evid.Failure {
 			return evid.Failf("udp-one-packet", "Write of %d bytes emitted %d frames", n, len(fr))
 		}
 		k := fr[0].Pkt
-		if k.L4Kind != "udp" || k.SrcPort != 4000 || k.DstPort != dport || !bytes.Equal(k.Dst, []byte(peer)) || !bytes.Equal(k.Payload, pl) {
-			if k.OK() {
+		if k.L4Kind != "udp" || k.SrcPort != 4000 || k.DstPort != dport || !bytes.Equal(k.Dst, wdst) || !bytes.Equal(k.Src, wsrc) || !bytes.Equal(k.Payload, pl) {
+			if k.OK() || len(k.Dst) != len(wdst) {
 				return evid.Failf("udp-addressing", "datagram of %d bytes to %v:%d (%s) from port 4000 was emitted as %s", n, []byte(peer), dport,
 					[]string{"explicit address", "address of the Connect just made", "address the socket is connected to"}[mode], k)
 			}
@@ -383,7 +402,7 @@ func scUDP(c Case, fc *frameCtx) *evid.Failure {
 			evid.Label("udp:zero-sum-payload")
 		}
 	}
-	return judgeFrames(fc, "tap", tap.Trace(), [][]byte{[]byte(me)})
+	return judgeFrames(fc, "tap", tap.Trace(), [][]byte{[]byte(me), []byte(netsim.A4)})
 }
 
 func scEcho(c Case, fc *frameCtx) *evid.Failure {
@@ -632,6 +651,7 @@ func genCase(rt *rapid.T) Case {
 	case "udp":
 		max = 65507
 		c.Zero = rapid.Bool().Draw(rt, "zero")
+		c.Dual = c.V6 && rapid.Bool().Draw(rt, "dual")
 		for i := 0; i < n; i++ {
 			c.UDPDst = append(c.UDPDst, rapid.OneOf(rapid.Just(0), rapid.IntRange(0, 26)).Draw(rt, "udp-dst"))
 		}
